@@ -61,16 +61,21 @@ def r1_one_name(ctx):
     for cmd in ('list_snapshots', 'list_files'):
         f = corpus.func('repository', f'Repository.{cmd}')
         ctx.analysed(f)
+        # the cell variable: the local assigned from the getter call
+        cell = None
+        for n in walk_local(f.node):
+            if isinstance(n, ast.Assign) and isinstance(n.value, ast.Call) and isinstance(n.value.func, ast.Name) and isinstance(n.targets[0], ast.Name) and any(k.arg in ('path', 'snapshot_path', 'data', 'file_data') for k in n.value.keywords):
+                cell = n.targets[0].id
         bad = []
         for n in walk_local(f.node):
-            if isinstance(n, ast.Assign) and any(isinstance(t, ast.Name) and t.id == 'value' for t in n.targets):
+            if isinstance(n, ast.Assign) and any(isinstance(t, ast.Name) and t.id == cell for t in n.targets):
                 v = n.value
                 if isinstance(v, ast.Call) and dotted(v.func) == 'str':
                     continue
-                if isinstance(v, ast.Call) and isinstance(v.func, ast.Name) and v.func.id == 'getter':
+                if isinstance(v, ast.Call) and isinstance(v.func, ast.Name) and any(k.arg in ('path', 'snapshot_path') for k in v.keywords):
                     continue
                 bad.append(n)
-        slices = [n for n in walk_local(f.node) if isinstance(n, ast.Subscript) and isinstance(n.slice, ast.Slice) and isinstance(n.value, ast.Name) and n.value.id == 'value']
+        slices = [n for n in walk_local(f.node) if isinstance(n, ast.Subscript) and isinstance(n.slice, ast.Slice) and isinstance(n.value, ast.Name) and n.value.id == cell]
         ctx.check(
             not bad and not slices,
             'C15.R1',
@@ -131,7 +136,6 @@ def r2_order(ctx):
     corpus = ctx.corpus
     fn = corpus.func('repository', 'Repository.restore')
     ctx.analysed(fn)
-    sorts = [c for c in calls_in(fn.node) if (isinstance(c.func, ast.Attribute) and c.func.attr == 'sort' and isinstance(c.func.value, ast.Name) and c.func.value.id == 'snapshots') or (dotted(c.func) == 'sorted' and c.args and isinstance(c.args[0], ast.Name) and 'snapshot' in c.args[0].id)]
     sorts = [c for c in calls_in(fn.node) if (isinstance(c.func, ast.Attribute) and c.func.attr == 'sort') or dotted(c.func) == 'sorted']
     sorts = [c for c in sorts if not any(isinstance(x, ast.Constant) and x.value == 'counter' for x in ast.walk(c))]
     ctx.floor('C15.R2', 'snapshot sort in restore', len(sorts))
@@ -168,7 +172,7 @@ def r2_order(ctx):
     ctx.floor('C15.R2', '"already planned" guard in restore', len(guards))
     n_pl = 0
     for st, d, key in plans:
-        if d not in planned_dicts and d != 'files_metadata':
+        if d not in planned_dicts:
             continue
         if not any(is_within(st, g) or True for g, _ in guards):
             continue
@@ -188,12 +192,14 @@ def r2_order(ctx):
         )
     ctx.floor('C15.R2', 'plan-creating statements', n_pl)
     # the loop iterates the sorted list itself
+    sorted_names = {c.func.value.id for c in sorts if isinstance(c.func, ast.Attribute) and isinstance(c.func.value, ast.Name)}
     for n in walk_local(fn.node):
-        if isinstance(n, ast.For) and isinstance(n.iter, (ast.Call, ast.Subscript)) and any(isinstance(x, ast.Name) and x.id == 'snapshots' for x in ast.walk(n.iter)):
+        if isinstance(n, ast.For) and isinstance(n.iter, (ast.Call, ast.Subscript)) and any(isinstance(x, ast.Name) and x.id in sorted_names for x in ast.walk(n.iter)):
             ctx.fail('C15.R2', f'{func_label(fn)}|plan-iterates-sorted-list', loc(fn, n), f'restore iterates `{src(n.iter)}` instead of the sorted snapshot list')
-    for cmd, var in (('list_snapshots', 'snapshots'), ('list_files', 'files')):
+    for cmd in ('list_snapshots', 'list_files'):
         f = corpus.func('repository', f'Repository.{cmd}')
-        ss = [c for c in calls_in(f.node) if isinstance(c.func, ast.Attribute) and c.func.attr == 'sort' and isinstance(c.func.value, ast.Name) and c.func.value.id == var]
+        ss = [c for c in calls_in(f.node) if isinstance(c.func, ast.Attribute) and c.func.attr == 'sort' and isinstance(c.func.value, ast.Name)]
+        var = ss[0].func.value.id if ss else None
         ctx.floor('C15.R2', f'sort in {cmd}', len(ss))
         for c in ss:
             ok, why = _ts_key_ok(kwarg(c, 'key'), allow_or_empty=True)
@@ -407,8 +413,12 @@ def r5_quantities(ctx):
     fn = corpus.func('repository', 'Repository.restore')
     ok = False
     for a in walk_local(fn.node):
-        if isinstance(a, ast.Assign) and isinstance(a.value, ast.BinOp) and isinstance(a.value.op, ast.Sub) and isinstance(a.value.left, ast.Name) and isinstance(a.value.right, ast.Name) and (a.value.left.id, a.value.right.id) == ('end', 'start'):
-            ok = True
+        if isinstance(a, ast.Assign) and isinstance(a.value, ast.BinOp) and isinstance(a.value.op, ast.Sub) and isinstance(a.value.left, ast.Name) and isinstance(a.value.right, ast.Name):
+            for u in walk_local(fn.node):
+                if isinstance(u, ast.Assign) and isinstance(u.targets[0], ast.Tuple) and len(u.targets[0].elts) == 2 and isinstance(u.value, ast.Subscript) and isinstance(u.value.slice, ast.Constant) and u.value.slice.value == 'range':
+                    lo, hi = u.targets[0].elts
+                    if isinstance(lo, ast.Name) and isinstance(hi, ast.Name) and (a.value.left.id, a.value.right.id) == (hi.id, lo.id):
+                        ok = True
     ctx.check(ok, 'C15.R5', f'{func_label(fn)}|restore-range-length', loc(fn, fn.node), 'restore: a reference contributes end - start bytes', 'restore: reference length is not end - start')
 
 
